@@ -156,7 +156,15 @@ def evaluate(
         exec(compile(code_block, '', mode='exec'), global_vars)  # pylint: disable=exec-used
       except Exception as e:
         raise errors.CodeError(code, e) from e
-      global_vars[RESULT_KEY] = list(global_vars.values())[-1]
+      # The last statement has no value of its own (e.g. `def`, `class`,
+      # `pass`): the result is the last variable that the code defined, if any,
+      # never the `__builtins__` that `exec` adds to the globals.
+      result = None
+      for k, v in global_vars.items():
+        if k != '__builtins__' and (
+            k not in orig_global_vars or v is not orig_global_vars[k]):
+          result = v
+      global_vars[RESULT_KEY] = result
 
   if returns_stdout:
     return stdout.getvalue()
